@@ -425,13 +425,13 @@ class Exec:
         return Ptr(base.obj, off)
 
     # ---------- UB / assertions
-    def record(s, st, kind, ident, model, extra=None):
+    def record(s, st, kind, ident, model, extra=None, known=None):
         fn = st.frames[-1].fn.name if st.frames else '?'
-        key = (kind, ident, fn)
-        if key in s.vkeys and len([v for v in s.violations if (v['kind'], v['id'], v['fn']) == key]) >= 3: return
+        key = (kind, ident, fn, known)
+        if key in s.vkeys and len([v for v in s.violations if (v['kind'], v['id'], v['fn'], v.get('known')) == key]) >= 3: return
         s.vkeys.add(key)
         stack = [f.fn.name for f in st.frames[-6:]]
-        s.violations.append({'kind': kind, 'id': ident, 'fn': fn, 'inputs': model, 'stack': stack, 'uf': extra or {}, 'reach': list(st.reach)})
+        s.violations.append({'kind': kind, 'id': ident, 'fn': fn, 'inputs': model, 'stack': stack, 'uf': extra or {}, 'reach': list(st.reach), 'known': known})
 
     def ub(s, st, msg):
         m = s.feasible(st)
